@@ -290,6 +290,12 @@ impl ScopeArena {
                 && scope.owner == Some(symbol.id)
             {
                 scope.owner = None;
+                // What the symbol's body imported or mixed in goes with it: the
+                // scope is interned by name, so a re-analysis of the file gets
+                // the same scope back and re-adds the imports it still has.
+                scope.imports.clear();
+                scope.wildcards.clear();
+                scope.mixins.clear();
             }
         }
 
